@@ -288,6 +288,11 @@ def recvmax(F, R):
                     cmps.append((sb, rv['op'], kb if la else ka, bool(la), p['l']))
                 if rv['op'] in ('Ne', 'Eq') and (kb == ('const', 0) or ka == ('const', 0)):
                     zero_tests.append((sb, ka if kb == ('const', 0) else kb))
+                # the same test for an unsigned value spelled `x > 0`, `0 < x`, `x >= 1`, `1 <= x`
+                if (rv['op'] == 'Gt' and kb == ('const', 0)) or (rv['op'] == 'Ge' and kb == ('const', 1)):
+                    zero_tests.append((sb, ka))
+                if (rv['op'] == 'Lt' and ka == ('const', 0)) or (rv['op'] == 'Le' and ka == ('const', 1)):
+                    zero_tests.append((sb, kb))
         R.ob('C12.recvmax', '%s|len-vs-limit comparison' % d.name, len(cmps) == 1, 'found %d comparisons of inflight.len() in the PUBLISH arm' % len(cmps))
         src_ok = False
         for sb, op, lim, len_lhs, loc_ in cmps:
